@@ -424,7 +424,7 @@ var ttRoots = []searchRoot{
 func checkC11(c *harness.Check) {
 	mustAnchors(c)
 	sizes := []uint64{32, 64, 512, 32768, 1 << 20}
-	c.Rule = fmt.Sprintf("roots with position-determined evaluation and exploration (static material leaf; captures-only quiescence over material) whose trees cannot contain a repetition or fifty-move draw x depth <= D x table sizes %v bytes x sequences of searches sharing ONE table (iterative deepening 1..d then d again; the same root at d,d,d-1,d; successive positions of a game along the PV; iterative deepening 1..d at every second position of a game along the PV, as an engine playing a game does; for the low-branching roots: iterative deepening, then EVERY move and EVERY reply, then iterative deepening again). All of it again with the table behind NewMinDepthTranspositionTable(1|2) (the wrapper cmd/morlock uses) for two sizes. Through the iterative-deepening DRIVER: every position within 2 plies of a capture-rich root analysed three times to depth 3 on one table - every iteration reported carries the table-free score of its depth and a variation whose first move is worth it. Through the ENGINE: games of 4-6 plies played by an engine with a 1 MB table (analyse, play the first move) next to an engine without a table given the same moves: same depth and score at every position, the move played worth it. Oracle per search: score == score without table == reference minimax; PV non-empty and its first move attains the reference value; EVERY ExactBound store (hash mapped back to its position through the Exploration/QuietSearch seams) equals the reference value of that position at that depth, and so does every exact entry the table HOLDS after the search for any position visited (table swept by Read). Capture-rich middlegame roots (shallow, most entries quiescence leaves), where exhaustive minimax is out of reach: there the value of (position, depth) is what the search itself returns for it on a fresh board without a table. plus a single-bit key probe: an entry stored under h is never returned for h with any one of its 64 bits flipped (all table sizes). distinct_nontrivial = distinct (position, depth) pairs of validated exact entries", sizes)
+	c.Rule = fmt.Sprintf("roots with position-determined evaluation and exploration (static material leaf; captures-only quiescence over material) whose trees cannot contain a repetition or fifty-move draw x depth <= D x table sizes %v bytes x sequences of searches sharing ONE table (iterative deepening 1..d then d again; the same root at d,d,d-1,d; successive positions of a game along the PV; iterative deepening 1..d at every second position of a game along the PV, as an engine playing a game does; for the low-branching roots: iterative deepening, then EVERY move and EVERY reply, then iterative deepening again). All of it again with the table behind NewMinDepthTranspositionTable(1|2) (the wrapper cmd/morlock uses) for two sizes. Through the iterative-deepening DRIVER: every position within 2 plies of a capture-rich root analysed three times to depth 3 on one table - every iteration reported carries the table-free score of its depth and a variation whose first move is worth it. Through the ENGINE: games of 4-6 plies played by an engine with a 1 MB table (analyse, play the first move) next to an engine without a table given the same moves: same depth and score at every position, the move played worth it; the same as a NEW game (Reset) right after both engines were set up with and analysed the same placement 2 and 1 half-moves from the fifty-move draw (a game whose values its history shaped). Oracle per search: score == score without table == reference minimax; PV non-empty and its first move attains the reference value; EVERY ExactBound store (hash mapped back to its position through the Exploration/QuietSearch seams) equals the reference value of that position at that depth, and so does every exact entry the table HOLDS after the search for any position visited (table swept by Read). Capture-rich middlegame roots (shallow, most entries quiescence leaves), where exhaustive minimax is out of reach: there the value of (position, depth) is what the search itself returns for it on a fresh board without a table. plus a single-bit key probe: an entry stored under h is never returned for h with any one of its 64 bits flipped (all table sizes). distinct_nontrivial = distinct (position, depth) pairs of validated exact entries", sizes)
 	var cases []c11case
 	for _, r := range ttRoots {
 		max := c.Pick(3, 4)
@@ -490,6 +490,10 @@ func checkC11(c *harness.Check) {
 	vmRich.impl = true
 	var cc classCap
 	ctx := context.Background()
+	// the engine-level families first: they are the cheaper ones, and a deadline (a loaded machine)
+	// should cut the long sweep short rather than skip them
+	engineGames(c, vmRich)
+	iterativeFamily(c, vmRich)
 	harness.Parallel(len(cases), func(i int) {
 		if c.Expired() {
 			return
@@ -515,8 +519,6 @@ func checkC11(c *harness.Check) {
 			c.Violation(cc.sig("C11/"+p.cls, cs.String()), p.msg+"\n    case: "+cs.String(), "C11/case", cs)
 		}
 	})
-	iterativeFamily(c, vmRich)
-	engineGames(c, vmRich)
 	for _, m := range []*valueMemo{vm, vmRich} {
 		m.mu.Lock()
 		c.States.Add(int64(len(m.m)))
